@@ -5,6 +5,7 @@
 #include "../obs.h"
 #include "../gen.h"
 #include <limits.h>
+#include <errno.h>
 #include <fcntl.h>
 #include "checks/corpus.h"
 
@@ -210,6 +211,43 @@ static void giant_write(Ctx &ctx, Local &lc) {
         munmap(raw, total);
     }
 }
+
+// Lists whose worst-case figure lands exactly on INT_MAX - 2f+1 ... INT_MAX + 1 + 2f (f = 3 or 6 characters per input character): item 1 is a
+// key, item 2 a key and a value; every separator ('&', '=') has to be part of the figure that is compared with INT_MAX.
+static void boundary_lists(Ctx &ctx, Local &lc) {
+    BigRun ra('a', (size_t)INT_MAX / 3 + 16);
+    for (int nb = 0; nb < 2; nb++) for (int d = -2; d <= 2; d++) {
+        long f = nb ? 6 : 3, S = ((long)INT_MAX - 1) / f, L = S / 3, v = S - 2 * L + d; double worst = (double)f * (double)(S + d) + 2, true_min = (double)(S + d) + 2;
+        UriQueryListA n[2]; n[0].key = ra.str((size_t)L); n[0].value = 0; n[0].next = &n[1]; n[1].key = ra.str((size_t)L); n[1].value = ra.str((size_t)v); n[1].next = 0;
+        int req = -12345, sig; Str enc = fmt("X`%d`%d`0`0`A", nb, d); lc.big++; ctx.progress++;
+        if ((sig = GUARD_ENTER()) != 0) { ctx.violation("", enc, fmt("%s in uriComposeQueryCharsRequiredExA for a worst case of exactly %.0f characters", signame(sig), worst)); continue; }
+        int rc = uriComposeQueryCharsRequiredExA(&n[0], &req, URI_TRUE, nb); GUARD_LEAVE();
+        if (rc == URI_SUCCESS) { if (worst > (double)INT_MAX || req < 0 || (double)req < true_min) ctx.violation("", enc, fmt("lists (%ld),(%ld,%ld) of 'a', normalizeBreaks=%d: worst case %.0f, success with charsRequired=%d (INT_MAX is %d)", L, L, v, nb, worst, req, INT_MAX)); }
+        else if (rc == URI_ERROR_OUTPUT_TOO_LARGE) { lc.big_refused++; if (worst <= (double)INT_MAX / 2) ctx.violation("", enc, "refused although far below INT_MAX"); }
+        else ctx.violation("", enc, fmt("unexpected rc=%d", rc));
+    }
+}
+
+// The allocating variant in the wide API with a key of INT_MAX/24 + 1 characters and a manager that records the request and refuses it: the
+// block asked for has to be the character count times sizeof(wchar_t) - computed in size_t, not in an int.
+static void wide_giant_malloc(Ctx &ctx, Local &lc) {
+    size_t n = (size_t)INT_MAX / 24 + 1, bytes = (n + 1) * sizeof(wchar_t); wchar_t *t = (wchar_t *)mmap(0, bytes, PROT_READ | PROT_WRITE, MAP_PRIVATE | MAP_ANONYMOUS | MAP_NORESERVE, -1, 0); if (t == (wchar_t *)MAP_FAILED) { ctx.harness_error("no address space for the wide key"); return; }
+    for (size_t i = 0; i < n; i++) t[i] = L'k'; t[n] = 0;
+    struct Rec { UriMemoryManager mm; size_t asked; int calls; } rec; rec.asked = 0; rec.calls = 0; rec.mm.userData = &rec;
+    rec.mm.malloc = [](UriMemoryManager *m, size_t k) -> void * { Rec *q = (Rec *)m->userData; q->asked = k; q->calls++; errno = ENOMEM; return (void *)0; };
+    rec.mm.calloc = [](UriMemoryManager *m, size_t a, size_t b) -> void * { Rec *q = (Rec *)m->userData; q->asked = (b && a > (size_t)-1 / b) ? (size_t)-1 : a * b; q->calls++; errno = ENOMEM; return (void *)0; };
+    rec.mm.realloc = [](UriMemoryManager *m, void *, size_t k) -> void * { Rec *q = (Rec *)m->userData; q->asked = k; q->calls++; return (void *)0; };
+    rec.mm.reallocarray = [](UriMemoryManager *m, void *, size_t a, size_t b) -> void * { Rec *q = (Rec *)m->userData; q->asked = a * b; q->calls++; return (void *)0; };
+    rec.mm.free = [](UriMemoryManager *, void *) {};
+    for (int nb = 0; nb < 2; nb++) { UriQueryListW item; item.key = t; item.value = 0; item.next = 0; wchar_t *out = 0; int sig; Str enc = fmt("W`%d`0`0`0`W", nb); lc.big++; ctx.progress++; rec.asked = 0; rec.calls = 0;
+        if ((sig = GUARD_ENTER()) != 0) { ctx.violation("", enc, fmt("%s in uriComposeQueryMallocExMmW for a key of %zu characters", signame(sig), n)); continue; }
+        int rc = uriComposeQueryMallocExMmW(&out, &item, URI_TRUE, nb, &rec.mm); GUARD_LEAVE();
+        size_t lo = (n + 1) * sizeof(wchar_t), hi = (6 * n + 2) * sizeof(wchar_t);
+        if (rc != URI_ERROR_MALLOC || rec.calls != 1) ctx.violation("", enc, fmt("a refusing manager: rc=%d after %d requests (expected URI_ERROR_MALLOC after one)", rc, rec.calls));
+        else if (rec.asked < lo || rec.asked > hi || rec.asked % sizeof(wchar_t)) ctx.violation("", enc, fmt("a wide key of %zu characters: the block asked for has %zu bytes (expected between %zu and %zu, a multiple of %zu)", n, rec.asked, lo, hi, sizeof(wchar_t)));
+    }
+    munmap(t, bytes);
+}
 void big_sizes(Ctx &ctx, Local &lc) {
     BigFamily fam(ctx.quick(), ctx.secondary ? 3 : 0); uint64_t idx = 0;
     for (int items = 1; items <= 2; items++) {
@@ -281,6 +319,8 @@ void run(Ctx &ctx) {
     if (ctx.worker == 0) for (unsigned long x : { 0x100ul, 0x141ul, 0x20ACul, 0x10041ul }) for (int shape = 0; shape < 3; shape++) for (int plus = 0; plus < 2; plus++) for (int nb = 0; nb < 2; nb++) wide_case(ctx, lc, x, shape, plus, nb);
     big_sizes(ctx, lc);
     if (!ctx.secondary && ctx.worker == 2 % ctx.nworkers) giant_write(ctx, lc);
+    if (!ctx.secondary && ctx.worker == 3 % ctx.nworkers) boundary_lists(ctx, lc);
+    if (!ctx.secondary && ctx.worker == 4 % ctx.nworkers) wide_giant_malloc(ctx, lc);
     if (sw.tripped()) ctx.violation("", "S`a`0`0`A", "AddressSanitizer reported an invalid access");
     ctx.st.count("evaluations", lc.compose_calls + lc.dissects + lc.splitter + lc.big); ctx.st.count("lists", lc.lists); ctx.st.count("compose_calls", lc.compose_calls); ctx.st.count("compose_refused_too_small", lc.too_small);
     ctx.st.count("dissect_roundtrips", lc.dissects); ctx.st.count("splitter_strings", lc.splitter); ctx.st.count("int_max_edge_lists", lc.big); ctx.st.count("int_max_edge_refused", lc.big_refused); ctx.st.count("dropped_empty_items", lc.dropped_items);
@@ -289,6 +329,8 @@ void run(Ctx &ctx) {
 void replay(Ctx &ctx, const Str &enc) {
     std::vector<Str> p = split(enc, '`'); Local lc; if (p.size() < 5) return;
     if (p[0] == "G") { giant_write(ctx, lc); return; }
+    if (p[0] == "X") { boundary_lists(ctx, lc); return; }
+    if (p[0] == "W") { wide_giant_malloc(ctx, lc); return; }
     if (p[0] == "B" && p.size() == 6) { BigFamily fam(p[5][0] == 'q', atoi(p[5].c_str() + 1)); fam.one(ctx, lc, atoi(p[1].c_str()), atoi(p[2].c_str()), atoi(p[3].c_str()), atoi(p[4].c_str())); return; }
     int a = atoi(p[2].c_str()), b = atoi(p[3].c_str());
     if (p[0] == "H") { unsigned long x = 0; int shape = 0; if (sscanf(p[1].c_str(), "%lx.%d", &x, &shape) == 2) wide_case(ctx, lc, x, shape, a, b); return; }
